@@ -114,6 +114,10 @@ Definition rune_len (l : list Z) : option Z :=
   else if (c <? 240) || (rem <? 4) then _ <- peekz l 1 ;; _ <- peekz l 2 ;; Some 3
   else _ <- peekz l 1 ;; _ <- peekz l 2 ;; _ <- peekz l 3 ;; Some 4.
 
+(* the single whitespace that ends a hex escape; CR LF counts as one (fix 2cdd145) *)
+Definition escape_ws (l : list Z) : option Z :=
+  nl <- consume_newline l ;; if 0 <? nl then Some nl else consume_whitespace l.
+
 Definition consume_escape (l : list Z) : option Z :=
   c <- peekz l 0 ;;
   if negb (c =? 92) then Some 0 else
@@ -123,7 +127,7 @@ Definition consume_escape (l : list Z) : option Z :=
   h <- consume_hexdigit l1 ;;
   if 0 <? h then
     k <- hex_upto 5 (tl l1) ;;
-    w <- consume_whitespace (skipz k (tl l1)) ;;
+    w <- escape_ws (skipz k (tl l1)) ;;                      (* if !consumeNewline() { consumeWhitespace() } *)
     Some (2 + k + w)
   else
     c1 <- peekz l1 0 ;;
